@@ -3,6 +3,8 @@ import Pycoin.Model.Sha256
 import Pycoin.Model.Merkle
 import Pycoin.Model.MerkleBlock
 import Pycoin.Spec.Merkle
+import Pycoin.Model.Block
+import Pycoin.DriverLib.TxText
 namespace Pycoin.Driver.C14
 open Pycoin.Driver Pycoin.Hash
 
@@ -43,5 +45,26 @@ def handle : Handler := fun op args =>
     match MerkleBlock.verify dsha256 total hs flags root with
     | .ok acc => some ("ok " ++ showList hx acc)
     | .error e => some ("err " ++ e.pyName)
+  -- Block.from_bin(b) -> as_bin(), id(), len(txs)   (an optional 3rd argument is a harness tag, ignored)
+  | "block_rt", c :: data :: _tag => do
+    let c ← DriverLib.parseCoin? c
+    let data ← DriverLib.decodeHexFast data
+    match Block.fromBin c data with
+    | .error e => some ("err " ++ e.tag)
+    | .ok blk =>
+      match Block.stream blk, Block.id blk.hdr with
+      | .ok b, .ok i => some s!"ok {DriverLib.encodeHexFast b} {String.ofList i} {blk.txs.length}"
+      | .error e, _ => some ("err " ++ e.tag)
+      | _, .error e => some ("err " ++ e.tag)
+  -- Block.parse_as_header(f) -> stream_header, id(), bytes left unread
+  | "header_rt", [data] => do
+    let data ← if data = "-" then some [] else DriverLib.decodeHexFast data
+    match Block.parseAsHeader data with
+    | .error e => some ("err " ++ e.tag)
+    | .ok (h, rest) =>
+      match Block.streamHeader h, Block.id h with
+      | .ok b, .ok i => some s!"ok {DriverLib.encodeHexFast b} {String.ofList i} {rest.length}"
+      | .error e, _ => some ("err " ++ e.tag)
+      | _, .error e => some ("err " ++ e.tag)
   | _, _ => none
 end Pycoin.Driver.C14
